@@ -108,6 +108,10 @@ def load_from_directory(layer: "SemanticLayer", directory: str | Path) -> None:
             # Check for Sidemantic native format (explicit models: key)
             elif "models:" in content:
                 adapter = SidemanticAdapter()
+            # Superset datasets also contain "metrics:" and "type: " (metric_type: ...), so they
+            # must be recognised before the generic MetricFlow metrics-file test below.
+            elif "table_name:" in content and "columns:" in content and "metrics:" in content:
+                adapter = SupersetAdapter()
             elif "metrics:" in content and "type: " in content:
                 adapter = MetricFlowAdapter()
             elif "base_sql_table:" in content and "measures:" in content:
@@ -124,8 +128,6 @@ def load_from_directory(layer: "SemanticLayer", directory: str | Path) -> None:
                 adapter = BSLAdapter()
             elif "type: metrics_view" in content:
                 adapter = RillAdapter()
-            elif "table_name:" in content and "columns:" in content and "metrics:" in content:
-                adapter = SupersetAdapter()
             elif (
                 "measures:" in content
                 and "dimensions:" in content
